@@ -23,8 +23,8 @@ ARCH = {
 def build_flags(tag):
     kind, arch = tag.split("-")
     a = ARCH[arch]
-    if kind == "prod":
-        return "g++", ["-O2"] + a
+    if kind == "prod":          # production: optimised, assertions off (as a Release build)
+        return "g++", ["-O2", "-DNDEBUG"] + a
     if kind == "asan":
         return "g++", ["-O1", "-g", "-fsanitize=address", "-fno-omit-frame-pointer"] + a
     if kind == "tsan":
@@ -32,9 +32,9 @@ def build_flags(tag):
     if kind == "tsanlk":
         return "clang++", ["-O1", "-g", "-fsanitize=thread", "-DSONIC_LOCKED_ALLOCATOR"] + a
     if kind == "prodlk":
-        return "g++", ["-O2", "-DSONIC_LOCKED_ALLOCATOR", "-pthread"] + a
+        return "g++", ["-O2", "-DNDEBUG", "-DSONIC_LOCKED_ALLOCATOR", "-pthread"] + a
     if kind == "hook":      # production flags + verification hooks (poisoned node stack, pool events)
-        return "g++", ["-O2", "-DSONIC_VERIF_HOOKS"] + a
+        return "g++", ["-O2", "-DNDEBUG", "-DSONIC_VERIF_HOOKS"] + a
     if kind == "asanhook":
         return "g++", ["-O1", "-g", "-fsanitize=address", "-fno-omit-frame-pointer", "-DSONIC_VERIF_HOOKS"] + a
     if kind == "dbg":
